@@ -44,6 +44,7 @@ type World struct {
 	renv       *rangeEnv
 	nilable    map[string]string
 	retNonNil  map[*ssa.Function]bool
+	mayNilRet  map[*ssa.Function]map[int]nilRet
 	alias      *aliasEngine
 	helperMemo map[string]map[string]string
 }
